@@ -220,3 +220,234 @@ pub fn cmd_wire_replay(a: &HashMap<String, String>) -> i32 {
     let _ = writeln!(out, "{}", json!({"summary": {"vectors": n, "clean": clean, "with_findings": bad, "build_errors": build_err, "per_stage": per_stage}}));
     0
 }
+
+// ------------------------------------------------------------------------------------ impl -> spec
+use rand::{rngs::StdRng, Rng, SeedableRng};
+
+fn dec_event(mode: &str, buf: &[u8], tag: &str) -> Value {
+    use bytes::BytesMut;
+    use insim::net::Codec;
+    let codec = Codec::new(crate::frames::mode_of(mode));
+    let mut b = BytesMut::from(buf);
+    let before = b.len();
+    let r = std::panic::catch_unwind(std::panic::AssertUnwindSafe(|| codec.decode(&mut b)));
+    let res = match &r {
+        Err(_) => "panic",
+        Ok(Ok(None)) => "none",
+        Ok(Ok(Some(_))) => "pkt",
+        Ok(Err(insim::Error::IO { .. })) => "frame_err",
+        Ok(Err(_)) => "err",
+    };
+    let after = b.len();
+    // whatever remains must be the untouched suffix of the input
+    let rest_ok = after <= before && b[..] == buf[before - after..];
+    // a packet that was decoded must never make the encoder abort (C03)
+    let mut reenc = "n/a";
+    if let Ok(Ok(Some(p))) = &r {
+        reenc = match try_encode(mode, p) {
+            Ok(_) => "ok",
+            Err(e) if e == "panic" => "panic",
+            Err(_) => "err",
+        };
+    }
+    json!({"ev": "Dec", "mode": mode, "sb": buf.first().copied().unwrap_or(0), "len": before, "res": res, "after": after,
+           "rest_ok": rest_ok, "reenc": reenc, "tag": tag, "buf": buf})
+}
+
+/// wire-fuzz --vectors v.ndjson --out trace.ndjson --seed n --events k
+pub fn cmd_wire_fuzz(a: &HashMap<String, String>) -> i32 {
+    let vpath = a.get("vectors").expect("--vectors");
+    let out = a.get("out").expect("--out");
+    let seed: u64 = a.get("seed").and_then(|s| s.parse().ok()).unwrap_or(1);
+    let events: usize = a.get("events").and_then(|s| s.parse().ok()).unwrap_or(20000);
+    let mut rng = StdRng::seed_from_u64(seed);
+    let mut frames: Vec<(String, Vec<u8>)> = Vec::new();
+    let mut bases: Vec<(String, String, Vec<u8>)> = Vec::new();
+    let mut seen_kind = std::collections::HashSet::new();
+    for line in std::io::BufReader::new(std::fs::File::open(vpath).expect("vectors")).lines() {
+        let v: Value = serde_json::from_str(&line.unwrap()).expect("json");
+        if v["outcome"] == "ok" {
+            let mode = v["mode"].as_str().unwrap().to_string();
+            let b = bytes_of(&v["bytes"]);
+            let key = format!("{}{}", v["kind"].as_str().unwrap(), mode);
+            if seen_kind.insert(key) {
+                bases.push((v["kind"].as_str().unwrap().to_string(), mode.clone(), b.clone()));
+            }
+            frames.push((mode, b));
+        }
+    }
+    let mut w = std::io::BufWriter::new(std::fs::File::create(out).expect("create"));
+    let mut n = 0usize;
+    // 1. header sweep: every (mode, size byte) x buffer length class x all 256 type bytes
+    for mode in ["C", "U"] {
+        for sb in 0..=255u32 {
+            let nn = if mode == "C" { sb * 4 } else { sb } as usize;
+            let mut lens: Vec<usize> = vec![0, 1, 3, 4, nn.saturating_sub(1), nn, nn + 4, 1024];
+            lens.sort();
+            lens.dedup();
+            for len in lens {
+                let mut seen: Vec<(String, usize)> = Vec::new();
+                let mut worst: Option<Value> = None;
+                for t in 0..=255u32 {
+                    for fill in [0u8, 1, 0xff] {
+                        let mut buf = vec![fill; len];
+                        if len > 0 {
+                            buf[0] = sb as u8;
+                        }
+                        if len > 1 {
+                            buf[1] = t as u8;
+                        }
+                        let e = dec_event(mode, &buf, "hdr");
+                        let k = (e["res"].as_str().unwrap().to_string(), e["after"].as_u64().unwrap() as usize);
+                        if !e["rest_ok"].as_bool().unwrap() || e["reenc"] == "panic" {
+                            worst = Some(e.clone());
+                        }
+                        if !seen.contains(&k) {
+                            seen.push(k);
+                        }
+                    }
+                }
+                if let Some(e) = worst {
+                    let _ = writeln!(w, "{}", e);
+                    n += 1;
+                }
+                let seen_j: Vec<Value> = seen.iter().map(|(r, a)| json!({"res": r, "after": a})).collect();
+                let _ = writeln!(w, "{}", json!({"ev": "Hdr", "mode": mode, "sb": sb, "len": len, "seen": seen_j, "cases": 768}));
+                n += 1;
+            }
+        }
+    }
+    // 2. every byte of one valid frame of every kind takes all 256 values
+    for (kind, mode, base) in bases.iter() {
+        for off in 2..base.len() {
+            let mut seen: Vec<(String, usize)> = Vec::new();
+            for val in 0..=255u32 {
+                let mut buf = base.clone();
+                buf[off] = val as u8;
+                let e = dec_event(mode, &buf, "byte-sweep");
+                let k = (e["res"].as_str().unwrap().to_string(), e["after"].as_u64().unwrap() as usize);
+                if e["res"] == "panic" || e["reenc"] == "panic" || !e["rest_ok"].as_bool().unwrap() {
+                    let _ = writeln!(w, "{}", e);
+                    n += 1;
+                }
+                if !seen.contains(&k) {
+                    seen.push(k);
+                }
+            }
+            let seen_j: Vec<Value> = seen.iter().map(|(r, a)| json!({"res": r, "after": a})).collect();
+            let _ = writeln!(w, "{}", json!({"ev": "Hdr", "mode": mode, "sb": base[0], "len": base.len(), "seen": seen_j, "kind": kind, "offset": off, "cases": 256}));
+            n += 1;
+        }
+    }
+    // 3. seeded mutations of valid frames and random buffers
+    for _ in 0..events {
+        let (mode, f) = &frames[rng.gen_range(0..frames.len())];
+        let mut buf = f.clone();
+        let tag = match rng.gen_range(0..8) {
+            0 => {
+                let i = rng.gen_range(0..buf.len());
+                buf[i] ^= 1 << rng.gen_range(0..8);
+                "bitflip"
+            },
+            1 => {
+                let k = rng.gen_range(0..buf.len());
+                buf.truncate(k);
+                "truncate"
+            },
+            2 => {
+                let (_, g) = &frames[rng.gen_range(0..frames.len())];
+                buf.extend_from_slice(g);
+                "two-frames"
+            },
+            3 => {
+                buf[0] = rng.gen();
+                "size-byte"
+            },
+            4 => {
+                let k = rng.gen_range(1..6);
+                for _ in 0..k {
+                    let i = rng.gen_range(0..buf.len());
+                    buf[i] = rng.gen();
+                }
+                "bytes"
+            },
+            5 => {
+                let len = rng.gen_range(0..1100);
+                buf = (0..len).map(|_| rng.gen()).collect();
+                "random"
+            },
+            6 => {
+                let extra = rng.gen_range(1..9);
+                for _ in 0..extra {
+                    buf.push(rng.gen());
+                }
+                "extend"
+            },
+            _ => "valid",
+        };
+        let _ = writeln!(w, "{}", dec_event(mode, &buf, tag));
+        n += 1;
+    }
+    println!("{}", json!({"events": n}));
+    0
+}
+
+/// wire-cross --vectors v.ndjson --out trace.ndjson --seed n --per k
+/// records built by recombining the field values of the specification's vectors (pairwise and
+/// higher interactions between fields), encoded by the real codec: Enc events for Trace_Wire.
+pub fn cmd_wire_cross(a: &HashMap<String, String>) -> i32 {
+    let vpath = a.get("vectors").expect("--vectors");
+    let out = a.get("out").expect("--out");
+    let seed: u64 = a.get("seed").and_then(|s| s.parse().ok()).unwrap_or(1);
+    let per: usize = a.get("per").and_then(|s| s.parse().ok()).unwrap_or(40);
+    let mut rng = StdRng::seed_from_u64(seed);
+    let mut by_kind: std::collections::BTreeMap<String, Vec<Value>> = Default::default();
+    for line in std::io::BufReader::new(std::fs::File::open(vpath).expect("vectors")).lines() {
+        let v: Value = serde_json::from_str(&line.unwrap()).expect("json");
+        if v["domain"] == "in" && v["mode"] == "C" {
+            by_kind.entry(v["kind"].as_str().unwrap().to_string()).or_default().push(v["rec"].clone());
+        }
+    }
+    let mut w = std::io::BufWriter::new(std::fs::File::create(out).expect("create"));
+    let mut n = 0usize;
+    for (kind, recs) in by_kind.iter() {
+        for _ in 0..per {
+            let mut rec = recs[0].clone();
+            if let Value::Object(m) = &mut rec {
+                let keys: Vec<String> = m.keys().cloned().collect();
+                for k in keys {
+                    if kind == "Mso" && (k == "textstart" || k == "msg") {
+                        continue; // textstart must stay inside msg
+                    }
+                    let donor = &recs[rng.gen_range(0..recs.len())];
+                    if let Some(x) = donor.get(&k) {
+                        let _ = m.insert(k, x.clone());
+                    }
+                }
+            }
+            let p = match insim::Packet::from_abs(&json!({"kind": kind, "rec": rec})) {
+                Ok(p) => p,
+                Err(_) => continue,
+            };
+            for mode in ["C", "U"] {
+                let (res, bytes) = match try_encode(mode, &p) {
+                    Ok(b) => ("ok", b),
+                    Err(e) if e == "panic" => ("panic", vec![]),
+                    Err(_) => ("err", vec![]),
+                };
+                let _ = writeln!(w, "{}", json!({"ev": "Enc", "kind": kind, "mode": mode, "rec": rec, "res": res, "bytes": bytes}));
+                n += 1;
+            }
+        }
+    }
+    println!("{}", json!({"events": n}));
+    0
+}
+
+/// wire-dec --in case.json : run the real decoder on one stored buffer, print its Dec event
+pub fn cmd_wire_dec(a: &HashMap<String, String>) -> i32 {
+    let v: Value = serde_json::from_str(&std::fs::read_to_string(a.get("in").expect("--in")).expect("read")).expect("json");
+    let buf = bytes_of(&v["buf"]);
+    println!("{}", dec_event(v["mode"].as_str().unwrap_or("C"), &buf, "replay"));
+    0
+}
